@@ -120,6 +120,19 @@ def run(ctx, factor):
             compare_text(ctx, "\n".join(ls), "near-grammar(one character mutated)")
         if rep.violations and factor > 1:
             return
+    # `data16` prefixes: objdump prints them in front of padding (`data16 cs nopw 0x0(%rax,%rax,1)`) and alone (`data16`,
+    # `data16 data16`) when 0x66 bytes precede an undecodable opcode or end a section; one record per line in all cases
+    for _ in range(ctx.budget(10, 300) * factor):
+        lines, oracle, addr = ["", "Disassembly of section .text:", "", "0000000000401000 <f>:"], [], 0x401000
+        for _ in range(g.int(1, 6)):
+            body = g.pick(["data16", "data16 data16", "data16 cs nopw 0x0(%rax,%rax,1)", "data16 data16 cs nopw 0x0(%rax,%rax,1)",
+                           "push   %rbp", "ret", "xchg   %ax,%ax", "data16 lea 0x0(%rip),%rdi"])
+            nb = g.int(1, 7)
+            lines.append("  %x:\t%s\t%s" % (addr, ("66 " * nb).ljust(21), body))
+            rest = body.replace("data16 ", "")
+            oracle.append(("%x" % addr, rest.split(" ")[0]))
+            addr += nb
+        compare_text(ctx, "\n".join(lines) + "\n", "data16-lines", oracle=oracle)
     for _ in range(ctx.budget(6, 400) * factor):
         objdump_case(ctx, g.int(40, 400))
     files = sorted(glob.glob(os.path.join(impl.REPO, "tests", "assembly", "*.s")))
